@@ -19,7 +19,7 @@ from checks import reqgen as rg
 
 KINDS = ['served', 'served_bidir', 'served_slots', 'agg2', 'agg3', 'no_path_constraint', 'no_baudrate', 'no_feasible_mode',
          'mode_not_feasible', 'mode_not_feasible_rev', 'no_spectrum', 'not_enough_reserved', 'served_bidir2', 'twin_tx_lo',
-         'twin_tx_hi', 'served_n0', 'no_path', 'disjoint_pair']
+         'twin_tx_hi', 'served_n0', 'no_path', 'disjoint_pair', 'twin_p_lo', 'twin_p_hi']
 MARGIN = 2
 
 
@@ -99,6 +99,10 @@ def requests_for(kind, tag):
         # twins: identical in everything but the transmitter output power, so they are NOT identical requests
         return [R(f'{tag}w', 'trx B', 'trx A', trx_type='T', mode='ok2', bandwidth=100e9,
                   tx_power=1e-6 if kind == 'twin_tx_lo' else 5e-4)]
+    if kind in ('twin_p_lo', 'twin_p_hi'):
+        # twins: identical in everything (transmitter power included) but the requested optical power in the line
+        return [R(f'{tag}p', 'trx C', 'trx B', trx_type='T', mode='ok', bandwidth=100e9, tx_power=1e-3,
+                  power=1e-3 if kind == 'twin_p_lo' else 2e-3)]
     if kind == 'served_n0':
         # slot centred exactly on the anchor frequency of the grid (N = 0)
         return [R(f'{tag}z', 'trx A', 'trx B', trx_type='T', mode='ok2', bandwidth=100e9, n=0, m=4)]
@@ -407,11 +411,11 @@ def main(rep, tier, seed):
         cases += [{'kinds': list(p)} for p in itertools.permutations(KINDS, 4)]
     else:
         quad = itertools.permutations(KINDS, 4)
-        cases += [{'kinds': list(p)} for i, p in enumerate(quad) if i % 80 == seed % 80]
+        cases += [{'kinds': list(p)} for i, p in enumerate(quad) if i % 160 == seed % 160]
     results, stats = engine.run_pool('checks.c19', cases, horizon=600, chunksize=4)
     rep.absorb(results)
     rep.cov['bound'] = (f'every single outcome and every ordered pair of {len(KINDS)} outcome kinds, '
-                        f'every ordered triple, {"every ordered quadruple" if tier == "thorough" else "1/80 of the ordered quadruples"}, on an asymmetric '
+                        f'every ordered triple, {"every ordered quadruple" if tier == "thorough" else "1/160 of the ordered quadruples"}, on an asymmetric '
                         '5-site network (line + detour + one-way spur) with system margin 2 dB and penalty tables; per served response 5 lowest-SNR values '
                         'around the margin-inclusive threshold through jsontocsv')
     rep.cov['space_size'] = len(cases)
